@@ -249,6 +249,7 @@ pub fn on_root_poll_end(w: &mut World, out: &Out) {
         return;
     }
     w.model.co.resolved = true;
+    w.stats.o_co_final += 1;
     let term = w.model.co.terminal.unwrap();
     let prod = produced(w);
     let want: Vec<u32> = match w.model.co.take {
@@ -476,6 +477,19 @@ fn spawn<I: CoItem, M: Finish<I>>(stage: u8, item: I) -> SimWork<I, M> {
     let mut idx = Vec::new();
     item.indices(&mut idx);
     let vid = item.val_id();
+    let boom = with(|w| {
+        w.closure_call_counter += 1;
+        let boom = w.panic_at_closure_call != 0 && w.closure_call_counter == w.panic_at_closure_call;
+        if boom {
+            w.stats.f_panic += 1;
+            w.emit(Ev::Fault { what: "panic in a user closure", arg: stage as u32 });
+        }
+        boom
+    });
+    if boom {
+        // the item is dropped by the unwinding closure frame, like in a real closure
+        std::panic::panic_any(crate::leaf::InjectedPanic);
+    }
     let node = with(|w| {
         on_closure(w, stage, vid, &idx);
         let p = crate::gen::profile(w.prop);
